@@ -132,6 +132,7 @@ def run_wb(sc):
     bound = sc.get("bound", 1500)
     rnd = random.Random(sc["seed"] * 31 + 5)
     events = []
+    log = []
     state = dict(cycle=0, dead=False)
 
     def junk():
@@ -165,8 +166,10 @@ def run_wb(sc):
             yield
             n += 1
             if (yield wb.ack):
+                log.append([b["we"], b["cti"], "ack", min(n, 24)])
                 return "ack"
             if b["abort"] is not None and n >= b["abort"]:
+                log.append([b["we"], b["cti"], "abort", min(n, 24)])
                 return "abort"
             if n >= bound:
                 events.append((state["cycle"], 1, dict(c="TIMEOUT", t=state["cycle"])))
@@ -245,7 +248,7 @@ def run_wb(sc):
 
     gens = [master(), recorder(), passive(mem.process)()]
     if sc.get("lockstep"):
-        assert sc["wbw"] == 8 and sc["base"] == 0 and sc["pw"] > 8
+        assert sc["wbw"] == 8 and sc["base"] == 0
         gens.append(lockrec())
     env.run_simulation(top, gens)
     evs = [e[2] for e in sorted(events, key=lambda x: (x[0], x[1]))]
@@ -262,7 +265,7 @@ def run_wb(sc):
     evs.append(dict(c="END"))
     header = dict(c="NEW", wb=nbw, pb=nbp, base=sc["base"] // nbw, bound=bound)
     return dict(header=header, events=evs, cycles=state["cycle"], dead=state["dead"], ops=ops, memlog=mem.sorted_events(),
-                lock=lock)
+                lock=lock, log=log)
 
 
 # ------------------------------------------------------------------------------------------------ Avalon-MM
@@ -348,7 +351,8 @@ def run_avl(sc):
     bound = sc.get("bound", 1500)
     rnd = random.Random(sc["seed"] * 31 + 7)
     events = []
-    state = dict(cycle=0, dead=False, want=0, got=0)
+    log = []
+    state = dict(cycle=0, dead=False, want=0, got=0, waited=0)
     noise = sc.get("noise", True)
 
     def junk():
@@ -373,6 +377,7 @@ def run_avl(sc):
             yield
             n += 1
             if not (yield av.waitrequest):
+                state["waited"] = n
                 return
             if n >= bound:
                 events.append((state["cycle"], 1, dict(c="TIMEOUT", t=state["cycle"])))
@@ -411,6 +416,7 @@ def run_avl(sc):
                             yield av.address.eq(rnd.getrandbits(12))
                             yield av.burstcount.eq(rnd.choice([0, 1, 2, op["bc"], 7]))
                         yield from offer()
+                        log.append(["w", min(op["bc"], 5), "first" if k == 0 else "later", min(b["gap"], 13), min(state["waited"], 16)])
                     yield av.write.eq(0)
                 else:
                     yield av.write.eq(0)
@@ -422,6 +428,7 @@ def run_avl(sc):
                         yield av.writedata.eq(rnd.getrandbits(sc["avw"]))
                     state["want"] += op["bc"]
                     yield from offer()
+                    log.append(["r", min(op["bc"], 5), "first", 0, min(state["waited"], 16)])
                     yield av.read.eq(0)
                     if op["wait"]:
                         yield from idle(0)
@@ -494,4 +501,85 @@ def run_avl(sc):
     evs.append(dict(c="END"))
     header = dict(c="NEW", ab=nba, pb=nbp, base=basew, bound=bound, maxburst=sc.get("maxburst", 16))
     return dict(header=header, events=evs, cycles=state["cycle"], dead=state["dead"], ops=ops, memlog=mem.sorted_events(),
-                lock=lock)
+                lock=lock, log=log)
+
+
+# ------------------------------------------------------------------------------------------------ execute (C10 / C11)
+
+def wb_path(sc):
+    return "narrow" if sc["wbw"] < sc["pw"] else ("equal" if sc["wbw"] == sc["pw"] else "wide")
+
+
+def avl_path(sc):
+    return "up" if sc["avw"] < sc["pw"] else ("equal" if sc["avw"] == sc["pw"] else "down")
+
+
+def execute_bus(sc, workdir, kind):
+    """Run sc["runs"] independent executions of the real bridge (seeds derived from sc["seed"]), batch them into one
+    trace (NEW events), let TLC judge (T_WbMem / T_AvlMem); optional lock-step conformance run against the D-model."""
+    import os
+    from . import tlc
+    run = run_wb if kind == "wb" else run_avl
+    path = wb_path(sc) if kind == "wb" else avl_path(sc)
+    tspec = "T_WbMem" if kind == "wb" else "T_AvlMem"
+    lines, starts, cycles, dead, keys, lockres = [], [], 0, 0, set(), None
+    plans = sc.get("plans")
+    nruns = len(plans) if plans else sc.get("runs", 1)
+    for k in range(nruns):
+        sub = dict(sc, seed=sc["seed"] * 1000 + k)
+        if plans:
+            sub["ops"] = plans[k]
+        sub["lockstep"] = bool(sc.get("lockstep")) and k == 0
+        r = run(sub)
+        starts.append(len(lines) + 1)                  # 1-based trace line of this run's header
+        lines.append(r["header"])
+        lines.extend(r["events"])
+        cycles += r["cycles"]
+        dead += int(r["dead"])
+        for x in r["log"]:
+            keys.add(tuple([path] + x))
+        if sub["lockstep"]:
+            lf = os.path.join(workdir, "lock.ndjson")
+            if kind == "wb":
+                variants = [dict(R=sc["pw"] // 8, PATH="narrow" if path == "narrow" else "equal", VAR=v)
+                            for v in (["none"] if path == "narrow" else ["code", "abortfix"])]
+                lspec = "T_Wb2NativeLock"
+            else:
+                variants = [dict(MB=sc.get("maxburst", 16), VAR=v) for v in ("code", "gapfix")]
+                lspec = "T_Avl2NativeLock"
+            lockres = dict(cycles=len(r["lock"]), variant=None, drift=None)
+            for hd in variants:
+                tlc.write_ndjson(lf, hd, r["lock"])
+                lv = tlc.validate_trace(lspec, lf, workdir)
+                if lv["accepted"]:
+                    lockres["variant"] = hd["VAR"]
+                    lockres["drift"] = None
+                    break
+                if lockres["drift"] is None:
+                    lockres["drift"] = lv["bad"][:3]
+            if not os.environ.get("VERIF_KEEP"):
+                os.remove(lf)
+    tf = os.path.join(workdir, "trace.ndjson")
+    tlc.write_ndjson(tf, lines[0], lines[1:])
+    v = tlc.validate_trace(tspec, tf, workdir)
+    env_bad = [b for b in v["bad"] if isinstance(b[1], str) and b[1].startswith("ENV:")]
+    if env_bad:
+        raise RuntimeError("driver/recorder broke a bus rule (machinery): %r" % env_bad[:3])
+
+    def runof(line):
+        return max(i for i, st in enumerate(starts) if st <= line)
+    bad = [b[1:] + ["run%d" % runof(b[0])] for b in v["bad"]]
+    info = v["info"] or {}
+    sample = dict(path=path, cycles=cycles, lines=len(lines), tags=info, runs=nruns, hung_runs=dead,
+                  first_events=lines[1:4], lockstep=lockres)
+    stats = dict(cycles=cycles, events=len(lines), hung_runs=dead, **{"n_" + k.replace("-", "_"): n for k, n in info.items()})
+    if lockres:
+        stats["lockstep_cycles"] = lockres["cycles"]
+        stats["lockstep_drift"] = int(lockres["variant"] is None)
+        if lockres["variant"] not in (None, "none", "code"):
+            stats["lockstep_matches_repaired_variant"] = 1
+    if not os.environ.get("VERIF_KEEP"):
+        os.remove(tf)
+    nacc = sum(info.get(k, 0) for k in ("write", "read", "write-single", "write-burst", "write-beat", "read-single", "read-burst", "rdv"))
+    return dict(bad=bad, evaluations=nacc, nontrivial=[list(k) for k in sorted(keys, key=str)], traces=nruns,
+                sample=sample, stats=stats, lockstep=lockres)
